@@ -224,6 +224,14 @@ def check(run: Run) -> None:
     ok_v = len(visits) == 1 and strip_sites(fl.term_of(visits[0].args[0])) == ("attr", ("param", lk.pos_params[0]), "_q_ast")
     run.check(ok_v, "C16.R3", lk, lk.node, "search starts at the stream's own query AST", "lookup does not start from q.query_ast")
 
+    # the dictionaries hang on nodes of the streams' query ASTs, and the copy QMetaData makes shares its child lists with the
+    # node it replaces: anything that edits a stream's nodes or their lists in place (execution, derivation) drops or
+    # moves metadata that other streams still rely on
+    run.rule("C16.R6", "no operation of a stream edits nodes of a query AST in place (C11.R2 re-evaluated): the nodes that carry _q_metadata, and the child lists their copies share, are never rewritten behind another stream's back")
+    from ..report import run_stage
+
+    run_stage(run, "c11", only={"C11.R2"})
+
 
 def _metadata_loops(m, ctx, q, mdp):
     """[(function, loop)] for loops over <metadata>.items() in QMetaData or a private helper that receives metadata"""
